@@ -10,7 +10,7 @@ VERIF="$(cd "$(dirname "$0")/.." && pwd)"
 mkdir -p "$SCR"
 if [ ! -d "$SCR/repo" ]; then git -C /repo worktree add --detach "$SCR/repo" HEAD >/dev/null; fi
 git -C "$SCR/repo" checkout -q -- . && git -C "$SCR/repo" apply "$PATCH"
-rsync -a --delete --exclude .git --exclude evidence/replay "$VERIF/" "$SCR/verif/"
+rsync -a --delete --exclude .git --exclude evidence/replay "$VERIF/" "$SCR/verif/" || [ $? -eq 24 ]
 sed -i "s#\"/repo\"#\"$SCR/repo\"#; s#\"/repo/asn1rs-model\"#\"$SCR/repo/asn1rs-model\"#" "$SCR/verif/harness/Cargo.toml"
 rm -f "$SCR/verif/harness/Cargo.lock"; cp "$SCR/repo/Cargo.lock" "$SCR/verif/harness/Cargo.lock"
 cd "$SCR/verif"
